@@ -4,7 +4,7 @@ name=$1; shift
 d=/verif/seeded/$name
 wt=/tmp/wt/recheck-$$
 git -C /repo worktree add -q --detach $wt HEAD
-(cd $wt && git apply $d/patch.diff && cp $d/patch.diff . && mkdir -p tests && cp $d/seeded_demo.rs tests/ && cp $d/NOTES.author.md NOTES.md 2>/dev/null)
+(cd $wt && git apply $d/patch.diff && cp $d/patch.diff . && mkdir -p tests && cp $d/seeded_demo.rs tests/ && (cp -r $d/seeded_demo_caller tests/ 2>/dev/null || true) && cp $d/NOTES.author.md NOTES.md 2>/dev/null)
 cmd=$(python3 -c "import json;print(json.load(open('$d/meta.json')).get('demo_cmd',''))")
 SEEDED_DEMO_CMD="$cmd" python3 /verif/tools/seeded_eval.py $wt $name "$@"
 git -C /repo worktree remove --force $wt
